@@ -839,6 +839,43 @@ def _suite():
     S["esig.gt"] = lambda p: (operator.gt, (_esig(rs(p), 12, p.get('noise', True)), 0.5), {})
     S["esig.copy"] = lambda p: (lambda x: x.copy(), (_esig(rs(p), 12, p.get('noise', True)),), {})
     S["esig.abs.power.phase"] = lambda p: (lambda x: (x.abs(), x.power(), x.phase()), (_esig(rs(p), 12, p.get('noise', True), True),), {})
+    # ---- boundary values at which a device could take a short cut and hand its argument back (result must be a new object
+    #      with its own buffers): zero dispersion / length / gain / drive, unit factors, full slices
+    nz = lambda p: p.get('noise', True)
+    S["DM.D0.int"] = lambda p: (D.DM, (_osig(rs(p), N(p), 1, nz(p)), 0), {})
+    S["DM.D0.float"] = lambda p: (D.DM, (_osig(rs(p), N(p), 2, nz(p)), 0.0), {})
+    S["DM.D-0.0"] = lambda p: (D.DM, (_osig(rs(p), N(p), 1, nz(p)), -0.0), {})
+    S["DM.D0.retH"] = lambda p: (D.DM, (_osig(rs(p), N(p), 2, nz(p)), 0.0), {"retH": True})
+    S["FIBER.allzero"] = lambda p: (D.FIBER, (_osig(rs(p), N(p), 1, nz(p)), 10.0), {"alpha": 0.0, "beta_2": 0.0, "beta_3": 0.0, "gamma": 0.0})
+    # (FIBER(x, length=0) with gamma == 0 does not terminate on the unchanged tree - reported; the zero-length call below takes
+    #  the closed-form SPM branch)
+    S["FIBER.len0.spm"] = lambda p: (D.FIBER, (_osig(rs(p), N(p), 2, nz(p)), 0.0), {"gamma": 1.5})
+    S["EDFA.G0"] = lambda p: (D.EDFA, (_osig(rs(p), N(p), 1, nz(p)), 0.0, 3.0), {})
+    S["PM.zero"] = lambda p: (D.PM, (_osig(rs(p), N(p), 1, nz(p)), 0.0), {})
+    S["PM.zeros"] = lambda p: (D.PM, (_osig(rs(p), N(p), 2, nz(p)), np.zeros(N(p))), {})
+    S["MZM.zero"] = lambda p: (D.MZM, (_osig(rs(p), N(p), 1, nz(p)), 0.0), {"bias": 0.0, "loss_dB": 0.0, "ER_dB": 200.0})
+    S["LPF.wide"] = lambda p: (D.LPF, (_esig(rs(p), N(p), nz(p)), 0.499 * 8e9), {"fs": 8e9, "n": 1})
+    S["DAC.Vout0"] = lambda p: (D.DAC, (_bits(rs(p), p["n"]),), {"Vout": 0, "bias": 0.0})
+    S["DAC.None"] = lambda p: (D.DAC, (_as("binseq", _bits(rs(p), p["n"])),), {"Vout": None, "bias": None})
+    S["DAC.unit"] = lambda p: (D.DAC, (_as("uint8", _bits(rs(p), p["n"])),), {"Vout": 1, "bias": 0, "BW": None})
+    S["PD.noiseless-in"] = lambda p: (D.PD, (_osig(rs(p), N(p), 1, False), 3e9), {"include_noise": "thermal-only"})
+    import operator as _op
+    S["esig.add0"] = lambda p: (_op.add, (_esig(rs(p), 12, nz(p)), 0), {})
+    S["esig.sub0"] = lambda p: (_op.sub, (_esig(rs(p), 12, nz(p)), 0.0), {})
+    S["esig.mul1"] = lambda p: (_op.mul, (_esig(rs(p), 12, nz(p)), 1), {})
+    S["osig.mul1"] = lambda p: (_op.mul, (_osig(rs(p), 12, 2, nz(p)), 1.0), {})
+    S["esig.fullslice"] = lambda p: (_op.getitem, (_esig(rs(p), 12, nz(p)), slice(None)), {})
+    S["osig.fullslice"] = lambda p: (_op.getitem, (_osig(rs(p), 12, 2, nz(p)), slice(None)), {})
+    S["binseq.fullslice"] = lambda p: (_op.getitem, (_as("binseq", _bits(rs(p), 9)), slice(None)), {})
+    S["binseq.add.empty"] = lambda p: (_op.add, (_as("binseq", _bits(rs(p), 9)), []), {})
+    S["SAMPLER.stride1"] = lambda p: (D.SAMPLER, (_esig(rs(p), N(p), nz(p)), 0), {})
+    # ---- GET_EYE on signals that take different branches (with / without resampling; noisy / noiseless two-level signal)
+    def _nrz(p, sigma):
+        x = np.kron(np.tile([0, 1, 1, 0, 1, 0, 0, 1], 8), np.ones(p["sps"]))
+        return __import__("opticomlib.typing", fromlist=["x"]).electrical_signal(x + sigma * rs(p).randn(x.size) if sigma else x)
+    S["GET_EYE.resamp"] = lambda p: (D.GET_EYE, (_nrz(p, 0.05),), {"nslots": 64, "sps_resamp": 32})
+    S["GET_EYE.noiseless"] = lambda p: (D.GET_EYE, (_nrz(p, 0.0),), {"nslots": 64})
+    S["GET_EYE.noiseless.resamp"] = lambda p: (D.GET_EYE, (_nrz(p, 0.0),), {"nslots": 64, "sps_resamp": 24})
     # ---- ook
     S["ook.THRESHOLD_EST"] = lambda p: (O.THRESHOLD_EST, (_eye(rs(p), 64, p["sps"]),), {})
     S["ook.DSP"] = lambda p: (O.DSP, (__import__("opticomlib.typing", fromlist=["x"]).electrical_signal(
@@ -885,8 +922,14 @@ SUITE_NAMES += ["ppm.SDD.ndarray", "ppm.SDD.list", "ppm.DSP.hard.ndarray", "ppm.
                 "binseq.getitem", "binseq.eq", "esig.getitem", "osig.getitem", "esig.fft", "osig.ifft", "esig.gt", "esig.copy",
                 "esig.abs.power.phase"]
 SUITE_NAMES += [f"{c}.{o}.{k}" for o in ("add", "sub", "mul") for c, k in (("esig", "obj"), ("esig", "ndarray"), ("osig", "obj"))]
+BOUNDARY = ["DM.D0.int", "DM.D0.float", "DM.D-0.0", "DM.D0.retH", "FIBER.allzero", "FIBER.len0.spm", "EDFA.G0", "PM.zero", "PM.zeros", "MZM.zero",
+            "LPF.wide", "DAC.Vout0", "DAC.None", "DAC.unit", "PD.noiseless-in", "esig.add0", "esig.sub0", "esig.mul1", "osig.mul1",
+            "esig.fullslice", "osig.fullslice", "binseq.fullslice", "binseq.add.empty", "SAMPLER.stride1"]
+REF_FIRST = {"GET_EYE.noiseless", "GET_EYE", "GET_EYE.ndarray"}
+EYE_BRANCHES = ["GET_EYE.resamp", "GET_EYE.noiseless", "GET_EYE.noiseless.resamp"]
+SUITE_NAMES += BOUNDARY + EYE_BRANCHES
 # functions whose single call is slow: used less often
-SLOW = {"GET_EYE", "GET_EYE.ndarray", "ppm.BER.estimator", "ook.BER.estimator", "FBG", "ppm.THRESHOLD_EST", "ook.THRESHOLD_EST", "ook.DSP", "ppm.DSP.hard", "ppm.DSP.soft", "FIBER.nonlinear"}
+SLOW = {"GET_EYE", "GET_EYE.ndarray", "GET_EYE.resamp", "GET_EYE.noiseless", "GET_EYE.noiseless.resamp", "ppm.BER.estimator", "ook.BER.estimator", "FBG", "ppm.THRESHOLD_EST", "ook.THRESHOLD_EST", "ook.DSP", "ppm.DSP.hard", "ppm.DSP.soft", "FIBER.nonlinear"}
 THOROUGH_ONLY = {"ook.DSP"}      # one call takes ~6 s (GET_EYE with sps_resamp=128 on 8192 slots)
 GV_CONFS = [{"sps": 8, "R": 1e9, "N": 16}, {"sps": 16, "R": 1e9}, {"sps": 9, "R": 2.5e9, "N": 16}, {"sps": 8, "R": 10e9, "N": 16, "alpha": 0.5},
             {"sps": 1, "R": 16e9, "N": 128}]
@@ -915,6 +958,11 @@ def gen_monitor_cases(rng, tier):
             cases.append({"kind": "mon", "name": name,
                           "p": {"seed": rng.randrange(1000), "n": 16, "sps": conf["sps"], "noise": r % 2 == 0},
                           "seed": rng.choice([0, 1, 2, 7, 12345, 2 ** 31 - 1]), "gv": conf})
+    # GET_EYE call pairs that take different branches (with / without resampling, noisy / noiseless): the second result must not
+    # carry anything over from the first
+    for names in (["GET_EYE.resamp", "GET_EYE.noiseless"], ["GET_EYE.resamp", "GET_EYE"], ["GET_EYE.noiseless.resamp", "GET_EYE.noiseless"]):
+        cases.append({"kind": "order", "names": names, "p": {"seed": rng.randrange(1000), "n": 16, "sps": GV_CONFS[0]["sps"], "noise": True},
+                      "seed": rng.randrange(100), "gv": GV_CONFS[0]})
     # call orders on shared inputs
     fast = [n for n in SUITE_NAMES if n not in SLOW]
     n_orders = 100 if tier == "quick" else 800
@@ -965,7 +1013,10 @@ def _ref_main():
     import sys
     items = json.load(sys.stdin)
     out = [None] * len(items)
-    for i in reversed(range(len(items))):
+    # calls that take the plain branches first (before anything that could leave optional results behind), the rest reversed
+    idx = [i for i in range(len(items)) if items[i][0] in REF_FIRST] + \
+          [i for i in reversed(range(len(items))) if items[i][0] not in REF_FIRST]
+    for i in idx:
         out[i] = _one_reference(*items[i])
     json.dump(out, sys.stdout)
 
